@@ -3,7 +3,7 @@
 
 A translator is sound only if two pieces of Python with different numpy / Python semantics never yield the same Lean.
 Every case below is a textual edit of a real translated unit of device_kit (applied to a scratch copy of the package);
-the translators (vk/translate.py, translate_validators.py, translate_vec.py, translate_sets.py) are run in-process on the
+the translators (vk/translate.py, translate_validators.py, translate_vec.py, translate_sets.py, translate_loaders.py) are run in-process on the
 pristine and on the edited copy and the generated Lean (comments stripped) is compared:
 
   expect 'differs'        the edit changes what the code computes (or what it does to its caller): the generated Lean
@@ -20,7 +20,7 @@ import os, sys, shutil, tempfile, argparse, json, subprocess
 
 HERE = os.path.dirname(os.path.abspath(__file__))
 sys.path.insert(0, os.path.join(HERE, '..'))
-from vk import translate as T1, translate_validators as TVal, translate_vec as TV, translate_sets as TS
+from vk import translate as T1, translate_validators as TVal, translate_vec as TV, translate_sets as TS, translate_loaders as TL
 
 C = []
 def case(label, f, old, new, expect='differs'): C.append((label, f, old, new, expect))
@@ -118,18 +118,56 @@ case('length sets ones(shape[0]) vs ones(shape[1]) in a dot', 'deviceset.py', "'
 case('harmless comment / blank line', 'sdevice.py', "    cost1 = (self.c1*r**2)\n", "    # first term\n    cost1 = (self.c1*r**2)\n\n", 'same')
 case('harmless docstring edit', 'utils.py', "''' Apply decay to scalar b over times l, at rate 1-s '''", "''' decay '''", 'same')
 
+# ---- 10. loader helpers (T1l: vk/translate_loaders.py)
+LD = 'loaders/builder_loader.py'
+case('load ctl sorted(key=int) vs sorted() on the key strings', LD, "points = sorted(run['runs'].keys(), key=int)\n  for i,v in enumerate(points):\n    e = int", "points = sorted(run['runs'].keys())\n  for i,v in enumerate(points):\n    e = int")
+case('load ctl fill a[int(v):e] vs a[int(v):e+1]', LD, "_array[int(v):e] = run['runs'][v]", "_array[int(v):e+1] = run['runs'][v]")
+case('load ctl points[i+1] vs points[i]', LD, "e = int(points[i+1]) if i < len(points) - 1 else run['basis']\n    _array.append", "e = int(points[i]) if i < len(points) - 1 else run['basis']\n    _array.append")
+case('load ctl last run to basis vs basis-1', LD, "else run['basis']\n    _array[int(v):e]", "else run['basis'] - 1\n    _array[int(v):e]")
+case('load ctl on end inclusive vs exclusive', 'utils.py', "on_vector[on[i]:on[i+1]+1] = 1", "on_vector[on[i]:on[i+1]] = 1")
+case('load ctl range step 2 vs 1', 'utils.py', "for i in range(0, len(on), 2):", "for i in range(0, len(on), 1):")
+case('load ctl supply columns swapped vs not', LD, "np.stack((bounds[:,1], bounds[:,0]), axis=1)", "np.stack((bounds[:,0], bounds[:,1]), axis=1)")
+case('load ctl .all() vs .any()', LD, "(bounds[:,0] != bounds[:,1]).all()", "(bounds[:,0] != bounds[:,1]).any()")
+case('load ctl np.flip axis=1 vs no axis', LD, "bounds = np.stack((bounds[:,1], bounds[:,0]), axis=1)", "bounds = np.flip(bounds)")
+case('load ctl parameter_map key renamed', LD, "'reserveRatio': 'reserve'", "'reserveFraction': 'reserve'")
+case('load ctl template key 0 vs 1', LD, "item_template = run['runs']['0']", "item_template = run['runs']['1']")
+case('load kw sorted reverse=True', LD, "points = sorted(run['runs'].keys(), key=int)\n  for i,v in enumerate(points):\n    [l, h]", "points = sorted(run['runs'].keys(), key=int, reverse=True)\n  for i,v in enumerate(points):\n    [l, h]", 'untranslatable')
+case('load kw sorted key=str', LD, "points = sorted(run['runs'].keys(), key=int)\n  for i,v in enumerate(points):\n    [l, h]", "points = sorted(run['runs'].keys(), key=str)\n  for i,v in enumerate(points):\n    [l, h]", 'untranslatable')
+case('load kw np.zeros dtype=int', LD, "_array = np.zeros(shape)", "_array = np.zeros(shape, dtype=int)", 'untranslatable')
+case('load kw np.stack axis=0', LD, "np.stack((bounds[:,1], bounds[:,0]), axis=1)", "np.stack((bounds[:,1], bounds[:,0]), axis=0)", 'untranslatable')
+case('load kw np.stack out=', LD, "np.stack((bounds[:,1], bounds[:,0]), axis=1)", "np.stack((bounds[:,1], bounds[:,0]), axis=1, out=bounds)", 'untranslatable')
+case('load key (str) used as an index', LD, "_array[int(v):e] = run['runs'][v]", "_array[v:e] = run['runs'][v]", 'untranslatable')
+case('load int used as a JSON key', LD, "_array[int(v):e] = run['runs'][v]", "_array[int(v):e] = run['runs'][int(v)]", 'untranslatable')
+case('load inplace: care2bounds without deepcopy', 'utils.py', "  device = deepcopy(device)\n  care = device['care']", "  care = device['care']", 'untranslatable')
+case('load inplace: run dictionary edited', LD, "  _array = np.zeros(shape)\n", "  _array = np.zeros(shape)\n  run['runs']['0'] = item_template\n", 'untranslatable')
+case('load inplace: alias of the array', LD, "  _array = np.zeros(shape)\n", "  _array = np.zeros(shape)\n  alias = _array\n", 'untranslatable')
+case('load inplace: points.sort() in the loop', LD, "    e = int(points[i+1]) if i < len(points) - 1 else run['basis']\n    _array[int(v):e]", "    points.sort()\n    e = int(points[i+1]) if i < len(points) - 1 else run['basis']\n    _array[int(v):e]", 'untranslatable')
+case('load closure in the loop', LD, "    e = int(points[i+1]) if i < len(points) - 1 else run['basis']\n    _array[int(v):e]", "    nxt = lambda: int(points[i+1])\n    e = nxt() if i < len(points) - 1 else run['basis']\n    _array[int(v):e]", 'untranslatable')
+case('load binding: module-level rebinding of run_to_array', LD, "if __name__ == '__main__':", "run_to_array = lambda run: np.zeros(run['basis'])\n\nif __name__ == '__main__':", 'untranslatable')
+case('load binding: second def of run_to_cbounds_array', LD, "if __name__ == '__main__':", "def run_to_cbounds_array(run):\n  return []\n\nif __name__ == '__main__':", 'untranslatable')
+case('load binding: module defines its own sorted', LD, "logger = logging.getLogger()\n", "logger = logging.getLogger()\n\ndef sorted(x, key=None):\n  return list(x)\n", 'untranslatable')
+case('load binding: decorator on care2bounds', 'utils.py', "def care2bounds(device):", "@functools.lru_cache()\ndef care2bounds(device):", 'untranslatable')
+case('load binding: star-imported module defines enumerate', 'functions.py', "import numpy as np\n", "import numpy as np\nenumerate = lambda x: zip(range(1, 1 + len(x)), x)\n", 'untranslatable')
+case('load slice: bounds edited through a call', LD, "  bounds = np.stack((bounds[:,1], bounds[:,0]), axis=1)\n", "  bounds = np.stack((bounds[:,1], bounds[:,0]), axis=1)\n  np.negative(bounds, out=bounds)\n", 'untranslatable')
+case('load slice: constructor gets another name', LD, "  return device_kit.ADevice(device_id, basis, bounds)\n", "  other = 0*bounds\n  return device_kit.ADevice(device_id, basis, other)\n")
+case('load harmless: sorted(run[\'runs\'], key=int)', LD, "points = sorted(run['runs'].keys(), key=int)\n  for i,v in enumerate(points):\n    e = int", "points = sorted(run['runs'], key=int)\n  for i,v in enumerate(points):\n    e = int", 'same')
+case('load harmless: .append vs +=', LD, "_array.append([l,h,int(v),e])", "_array += [[l,h,int(v),e]]", 'same')
+case('load harmless: np.all(...)', LD, "(bounds[:,0] != bounds[:,1]).all()", "np.all(bounds[:,0] != bounds[:,1])", 'same')
+case('load harmless: comment', LD, "  item_template = run['runs']['0']\n", "  # the template decides the shape\n  item_template = run['runs']['0']\n", 'same')
+
 
 def strip(text):
   return '\n'.join(l for l in text.split('\n') if l.strip() and not l.lstrip().startswith('--') and not l.startswith('/--'))
 
 
 def outcome(root):
-  """({name: stripped Lean}, [fallback units]) of all four translators on the package copy under `root`."""
+  """({name: stripped Lean}, [fallback units]) of all five translators on the package copy under `root`."""
   texts, fb = {}, []
   t, u, f = T1.translate_kernels(os.path.join(root, 'device_kit', 'functions.py')); texts['Kernels'] = strip(t); fb += ['%s: %s' % (n, why) for n, w, why in f]
   t, u, f = TVal.translate_validators(root); texts['Validators'] = strip(t); fb += ['%s: %s' % (n, why) for n, w, why in f]
   tx, u, f, _ = TV.translate_all(root); texts.update({'Vec/' + g: strip(x) for g, x in tx.items()}); fb += ['vec.%s @ %s: %s' % x for x in f]
   tx, u, f, _ = TS.translate_all(root); texts.update({'Sets/' + g: strip(x) for g, x in tx.items()}); fb += ['sets.%s @ %s: %s' % x for x in f]
+  tx, u, f, _ = TL.translate_all(root); texts.update({'Loaders/' + g: strip(x) for g, x in tx.items()}); fb += ['load.%s @ %s: %s' % x for x in f]
   return texts, fb
 
 
@@ -180,7 +218,7 @@ def main():
 
 def bridge_fails(root):
   T1.regenerate_all(root)
-  r = subprocess.run(['lake', 'build', 'DK.Lemmas.Bridge', 'DK.Lemmas.ValidateBridge', 'DK.Lemmas.BridgeVec', 'DK.Lemmas.BridgeSets'],
+  r = subprocess.run(['lake', 'build', 'DK.Lemmas.Bridge', 'DK.Lemmas.ValidateBridge', 'DK.Lemmas.BridgeVec', 'DK.Lemmas.BridgeSets', 'DK.Lemmas.BridgeLoaders'],
                      cwd=os.path.join(HERE, '..', 'lean'), capture_output=True, text=True)
   return 'bridge fails' if r.returncode != 0 else 'BRIDGE STILL BUILDS'
 
